@@ -75,7 +75,9 @@ func VerifH_done() {
 
 	// C02(c): every completion removes exactly one stream from the channel the call was placed on
 	for j := 0; j < vR; j++ {
-		want := pre.streams[j]
+		// (plus what other goroutines did to the counter while the callback ran: interference at
+		// compare-and-swap operations, see verifCAS32)
+		want := pre.streams[j] + verifCasDelta(&w.refs[j].streamsCnt)
 		if j == onIdx {
 			want--
 		}
